@@ -33,6 +33,9 @@ type appWorld struct {
 	dao       crypto.PrivateKey
 	appKeys   []crypto.PrivateKey // genesis + cands + fresh: every key that may ever own an application
 	entropy   int64
+	// hadApp: hex addresses that owned an application record at some point of the history (maintained by genTx from the
+	// views it is given): a key whose application was paid out and removed is a legitimate transfer target again
+	hadApp map[string]bool
 }
 
 type appWeights struct {
@@ -201,6 +204,12 @@ func (w *appWorld) genTx(rt *rapid.T, n *chain.Node, v appView, wt appWeights) a
 	isStaked := func(r appRec, ok bool) bool { return ok && r.app.Status == sdk.Staked }
 	isUnstaking := func(r appRec, ok bool) bool { return ok && r.app.Status == sdk.Unstaking }
 	none := func(r appRec, ok bool) bool { return !ok }
+	if w.hadApp == nil {
+		w.hadApp = map[string]bool{}
+	}
+	for a := range v.recs {
+		w.hadApp[a] = true
+	}
 	min := v.params.AppStakeMin
 	switch pick(rt, "kind", wt.stake, wt.edit, wt.transfer, wt.unstake, wt.param, wt.send) {
 	case 0: // new stake (mostly keys without a record)
@@ -294,6 +303,19 @@ func (w *appWorld) genTx(rt *rapid.T, n *chain.Node, v appView, wt appWeights) a
 		case 1:
 			if p := v.keysWith(w.cands, none); len(p) > 0 {
 				to = pickKey(rt, "to", p)
+				// half of the time, when there is one: the key of an application that existed earlier and was removed
+				if former := v.keysWith(w.appKeys, func(r appRec, ok bool) bool { return !ok }); len(former) > 0 {
+					var f2 []crypto.PrivateKey
+					for _, k := range former {
+						if w.hadApp[hx(chain.Addr(k))] {
+							f2 = append(f2, k)
+						}
+					}
+					if len(f2) > 0 && uniformN(rt, "toFormerApp", 2) == 0 {
+						to = pickKey(rt, "toFormer", f2)
+						lab = append(lab, "transfer-to-key-of-removed-application")
+					}
+				}
 				lab = append(lab, "transfer-to-funded-key")
 			}
 		case 2:
